@@ -324,7 +324,11 @@ pub fn run_plans(rep: &Reporter, focus: &[&str], plans: &[Plan], deadline: Optio
         let n = plan.limit.map_or(plan.fam.count(), |l| l.min(plan.fam.count()));
         let t0 = Instant::now();
         let chunk = (n / (nthreads() as u64 * 8)).clamp(1, 4096);
-        let res = par_run::<Agg, _>(n, chunk, deadline, rep.seed, |i, agg| run_instance(rep, focus, plan, i, agg));
+        // the single-worker sweeps create two threads per solver run (the solver's worker and the helper which makes a hang
+        // observable): measured in this VM, ONE harness thread makes 1.9e4 such runs per second, two make 1.5e4, four 5e3 and
+        // sixteen 4e3 (thread creation and exit serialise on the address space of the process): these plans use one thread
+        let nt = if plan.par1 && std::env::var("VERIF_THREADS").is_err() { 1 } else { crate::par::nthreads() };
+        let res = par_run_n::<Agg, _>(n, chunk, deadline, rep.seed, nt, |i, agg| run_instance(rep, focus, plan, i, agg));
         let mut runs = 0;
         for l in res.locals { runs += l.runs + l.cut_runs + l.primal_runs; total.merge(l); }
         if res.capped || res.done < n { all_complete = false; }
